@@ -102,6 +102,13 @@ def build(pl, rot, order, split, r):
     for i, site in enumerate(POSITIONS):
         s1, s2 = sp[(rot + i) % len(sp)], sp[(rot + 3 * i + 1) % len(sp)]
         holders.append((site, f"h{i} = record {{ f: {s1}; g: list<{s2}>; }}"))
+    if split == 2:
+        # declarations and references in both files: the imported file is finished (its references bound) before the
+        # importing file registers the declarations that shadow / would have matched them
+        k = 1 + (rot % len(pl)) if len(pl) > 1 else 1
+        lib_holders = [(site, text.replace(f"h{i} =", f"g{i} =")) for i, (site, text) in enumerate(holders)]
+        return {"/w/m.djinni": '@import "lib.djinni"\n' + emit_tree(holders + decls[k:], r, order),
+                "/w/lib.djinni": emit_tree(decls[:k] + lib_holders if order else lib_holders + decls[:k], r, order)}
     if split:
         return {"/w/m.djinni": '@import "lib.djinni"\n' + emit_tree(holders, r, order), "/w/lib.djinni": emit_tree(decls, r, order)}
     items = holders + decls if order == 0 else decls + holders
@@ -110,7 +117,7 @@ def build(pl, rot, order, split, r):
 
 def run(ctx):
     ctx.coverage["rule"] = ("placements of 1–3 declarations named x among 6 namespace positions (depth <= 3) x 6 reference sites x all "
-                            "relative/partly qualified/absolute spellings x reference before/after x own/imported file; plus random programs; "
+                            "relative/partly qualified/absolute spellings x reference before/after x own/imported file/both files (imported file finished first); plus random programs; "
                             "distinct = distinct (placement, site, spelling, order, split); non-trivial = reference resolves to a user type or is rejected")
     allc = placement_cases()
     r = random.Random(f"{ctx.seed}/c04")
@@ -118,7 +125,7 @@ def run(ctx):
         allc = r.sample(allc, min(1500, len(allc)))
     todo = []
     for (pl, rot) in allc:
-        variants = [(0, False), (1, False), (0, True)] if not ctx.quick else [r.choice([(0, False), (1, False), (0, True)])]
+        variants = [(0, False), (1, False), (0, True), (0, 2), (1, 2)] if not ctx.quick else [r.choice([(0, False), (1, False), (0, True), (0, 2), (1, 2)])]
         for order, split in variants:
             todo.append({"files": build(pl, rot, order, split, random.Random(f"{ctx.seed}/c04/{pl}/{rot}/{order}/{split}")), "root": "/w/m.djinni",
                          "meta": ("place", tuple(map(tuple, pl)), rot, order, split)})
